@@ -280,6 +280,28 @@ vharness!(c18_q_rejects, 8, {
     cover!(cm && un);
 });
 
+/// Systematic rows (thorough tier): constructor `k` on both sides, first child of leaf kind `la0`
+/// against EVERY leaf kind on the other side (second child a ground leaf).
+fn ctor_leaf_row(k: usize, la0: usize) {
+    let mut lb0 = 0;
+    while lb0 < N_LEAF_KINDS {
+        arena_reset();
+        let ka = kids(la0, 0);
+        let kb = kids(lb0, 0);
+        let a = mk_top(k, &ka);
+        let b = mk_top(k, &kb);
+        let _ = check_pair(&a, &b);
+        lb0 += 1;
+    }
+    cover!(true);
+}
+macro_rules! rows {
+    ($($name:ident: $k:expr, $l:expr;)*) => {$(
+        vharness!($name, 11, { ctor_leaf_row($k, $l) });
+    )*};
+}
+include!("c18_rows.rs");
+
 // Argument lists as such (the call shape of `Program::impls_for_trait`: impl header arguments
 // against trait-reference arguments): `[ty, lifetime, const]` with leaf kinds per class.
 fn arg_lists(la: usize, lb: usize) {
